@@ -92,7 +92,7 @@ Definition np_bracket (content : bytes) : nbres :=
   if np_quoted 39 c || np_quoted 34 c then
     match c with
     | _ :: (_ :: _) as r => BPart (PKey (removelast r))     (* content[1 : len-1] *)
-    | _ => BPanic                                           (* a lone quote: content[1:0] is out of range *)
+    | _ => BErr                                             (* a lone quote is an invalid bracket content (as found: a panic, F52, repaired) *)
     end
   else match np_atoi c with
        | Some z => BPart (PIndex z)
